@@ -88,4 +88,15 @@ def Item.isBody : Item → Bool
   | .fnc1First | .fnc1Second | .sa _ _ => false
   | _ => true
 
+/-- GS1 alphanumeric data (7.4.8.2): `%` is doubled, the separator GS (0x1D) becomes a single `%` — on characters -/
+def gs1Escape : List Nat → List Nat
+  | [] => []
+  | c :: rest => (if c = 0x1D then [37] else if c = 37 then [37, 37] else [c]) ++ gs1Escape rest
+
+/-- no separator is directly followed by a separator or by `%` (there the standard's escape is ambiguous:
+    `GS %` and `% GS` both escape to `%%%`, `GS GS` to `%%`) -/
+def gs1Clean : List Nat → Bool
+  | a :: b :: rest => !(a == 0x1D && (b == 0x1D || b == 37)) && gs1Clean (b :: rest)
+  | _ => true
+
 end Gzx.QRMulti
